@@ -203,6 +203,18 @@ long k_write(int fd, const void *buf, size_t n) {
     FileNode &node = nt->second;
     if (node.kind == 2) { G.hist[ei].data.assign((const char *)buf, n); return done((long)n, 0, faulted); }
     if (node.kind == 3) { G.w.tty_bytes.append((const char *)buf, n); G.hist[ei].data.assign((const char *)buf, n); return done((long)n, 0, faulted); }
+    if (node.kind == 4) {
+        // a FIFO with a slow reader: `fifo_free` bytes of room right now. A blocking write completes in full once the reader
+        // has made room; a non-blocking one (O_NONBLOCK) gets EAGAIN (atomic writes up to PIPE_BUF) or a partial count.
+        if ((d.flags & O_NONBLOCK) && node.fifo_free >= 0 && (long)n > node.fifo_free) {
+            G.counters["fifo-nonblocking-shortfall"]++;
+            if (n <= 4096 || node.fifo_free == 0) return done(-1, EAGAIN, false);
+            n = (size_t)node.fifo_free;
+        }
+        if (node.fifo_free >= 0) node.fifo_free = (long)n > node.fifo_free ? 0 : node.fifo_free - (long)n;
+        node.content.append((const char *)buf, n); G.hist[ei].data.assign((const char *)buf, n);
+        return done((long)n, 0, faulted);
+    }
     if (d.flags & O_APPEND) d.off = (long)node.content.size();
     long growth = d.off + (long)n - (long)node.content.size();
     if (growth < 0) growth = 0;
@@ -490,11 +502,23 @@ static int phdr_cb(struct dl_phdr_info *info, size_t, void *) {
     return 0;
 }
 static void plain_copy(volatile char *dst, const volatile char *src, size_t n) { for (size_t i = 0; i < n; i++) dst[i] = src[i]; }
+// thread-local storage of the library (static __thread variables) of the CALLING thread: back to its initialisation image
+static int tls_cb(struct dl_phdr_info *info, size_t, void *) {
+    if (!info->dlpi_name || !strstr(info->dlpi_name, "libsnoopy.so") || !info->dlpi_tls_data) return 0;
+    for (int i = 0; i < info->dlpi_phnum; i++) {
+        const ElfW(Phdr) &ph = info->dlpi_phdr[i];
+        if (ph.p_type != PT_TLS) continue;
+        volatile char *blk = (volatile char *)info->dlpi_tls_data;
+        plain_copy(blk, (const volatile char *)(info->dlpi_addr + ph.p_vaddr), ph.p_filesz);
+        for (size_t k = ph.p_filesz; k < ph.p_memsz; k++) blk[k] = 0;
+    }
+    return 0;
+}
 static void lib_state_capture() {
     dl_iterate_phdr(phdr_cb, nullptr);
     for (auto &s : g_segs) { s.copy.resize(s.len); plain_copy(&s.copy[0], s.addr, s.len); }
 }
-void lib_state_restore() { for (auto &s : g_segs) plain_copy(s.addr, s.copy.data(), s.len); }
+void lib_state_restore() { for (auto &s : g_segs) plain_copy(s.addr, s.copy.data(), s.len); dl_iterate_phdr(tls_cb, nullptr); }
 
 // ------------------------------------------------------------------ exec recorder
 typedef int (*execv_t)(const char *, char *const *);
@@ -815,7 +839,7 @@ void sim_global_init() {
     proc_state_capture();
     if (__sanitizer_install_malloc_and_free_hooks) __sanitizer_install_malloc_and_free_hooks(hook_malloc, hook_free);
     // probe: the recorder must be what the wrapper reaches
-    Plan p; p.world.files["/simroot"] = FileNode{1, "", 0, 0, 0755};
+    Plan p; { FileNode dn; dn.kind = 1; p.world.files["/simroot"] = dn; }
     G = Sim(); G.w = p.world;
     char *av[] = {(char *)"probe", nullptr}; char *ev[] = {nullptr};
     t_in_sut = 1; int rc = p_execve("/probe", av, ev); t_in_sut = 0;
